@@ -72,6 +72,7 @@ ExtendsEl(base, mods) == [k |-> "extends", base |-> base, mods |-> mods]
 ImportEl(form, path, names) == [k |-> "import", form |-> form, path |-> path, names |-> names]
     \* form "qual": import a.b;  "renamed": import n = a.b;  "star": import a.b.*;  "list": import a.b.{n1, n2, ..}
 NestedEl(c) == [k |-> "class", c |-> c]
+ShortEl(name, base, mods) == [k |-> "short", name |-> name, base |-> base, mods |-> mods]     \* type name = base(mods);
 ElemSec(vis, elems) == [k |-> "elems", vis |-> vis, elems |-> elems]       \* vis: "first" (unnamed), "public", "protected"
 EqSec(initial, ids) == [k |-> "eq", initial |-> initial, ids |-> ids]       \* ids: each equation is  e<id> = <id>;
 AlgSec(initial, ids) == [k |-> "alg", initial |-> initial, ids |-> ids]     \* each statement is  s<id> := <id>;
@@ -118,7 +119,12 @@ Declared(c) ==
      extends |-> Flatten([i \in DOMAIN els |-> IF els[i].el.k = "extends"
                             THEN << [base |-> els[i].el.base, mods |-> els[i].el.mods, vis |-> els[i].vis] >> ELSE <<>>]),
      imports |-> MergeStars(Flatten([i \in DOMAIN els |-> IF els[i].el.k = "import" THEN ImportEntries(els[i].el) ELSE <<>>]), <<>>),
-     classes |-> Flatten([i \in DOMAIN els |-> IF els[i].el.k = "class" THEN << Declared(els[i].el.c) >> ELSE <<>>])]
+     classes |-> Flatten([i \in DOMAIN els |->
+                    CASE els[i].el.k = "class" -> << Declared(els[i].el.c) >>
+                      [] els[i].el.k = "short" -> << [name |-> els[i].el.name, comment |-> "", comps |-> <<>>, eqs |-> <<>>, ieqs |-> <<>>,
+                                                      stmts |-> <<>>, istmts |-> <<>>, imports |-> <<>>, classes |-> <<>>,
+                                                      extends |-> << [base |-> els[i].el.base, mods |-> els[i].el.mods, vis |-> "first"] >>] >>
+                      [] OTHER -> <<>>])]
 
 RECURSIVE HasDuplicate(_)
 HasDuplicate(c) ==      \* a component name declared twice in one class (any nesting level)
@@ -147,6 +153,10 @@ ElementEvents(el) ==
            \o << Ev("ExitExtendsClause", [base |-> el.base, mods |-> el.mods]) >>
       [] el.k = "import" -> << Ev("ExitImportClause", [form |-> el.form, path |-> el.path, names |-> el.names]) >>
       [] el.k = "class"  -> Events(el.c)
+      [] el.k = "short"  ->
+              << Ev("EnterClassDefinition", [kind |-> "type"]) >>
+           \o [i \in DOMAIN el.mods |-> Ev("EnterElementModification", None)]
+           \o << Ev("ExitClassSpecBase", [name |-> el.name, base |-> el.base, mods |-> el.mods]), Ev("ExitClassDefinition", None) >>
 SectionEvents(s) ==
     CASE s.k = "elems" -> << Ev("EnterElementList", None) >>
                           \o Flatten([i \in DOMAIN s.elems |-> ElementEvents(s.elems[i])])
@@ -312,6 +322,9 @@ Handle(mm, ev, sw) ==
                 pick(sects, ini) == Flatten([i \in DOMAIN sects |-> IF sects[i].initial = ini THEN sects[i].ids ELSE <<>>])
             IN  [mm EXCEPT !.h = [h1 EXCEPT ![cls] = [@ EXCEPT !.eqs = pick(c.eqsects, FALSE), !.ieqs = pick(c.eqsects, TRUE),
                                                                !.stmts = pick(c.algsects, FALSE), !.istmts = pick(c.algsects, TRUE)]]]
+    [] ev.e = "ExitClassSpecBase" ->      \* short class definition: the base becomes an extends clause of the new class
+            LET m1 == Alloc(mm, [o |-> "ext", base |-> a.base, mods |-> a.mods, vis |-> "private"])
+            IN  [m1 EXCEPT !.h = [@ EXCEPT ![cls] = [@ EXCEPT !.name = a.name, !.extends = Append(@, NewId(mm))]]]
     [] ev.e = "ExitClassSpec" -> [mm EXCEPT !.h = [@ EXCEPT ![cls] = [@ EXCEPT !.name = a.name, !.comment = a.comment]]]
     [] ev.e = "ExitClassDefinition" ->
             LET parent == mm.stk[Len(mm.stk) - 1]
@@ -395,6 +408,14 @@ ClausePrograms ==
              \cup {<<MkDecl("a", FirstDeclOpts[i]), MkDecl("b", OtherDeclOpts[j])>> : i \in DOMAIN FirstDeclOpts, j \in DOMAIN OtherDeclOpts}
              \cup {<<MkDecl("a", FirstDeclOpts[i]), MkDecl("b", OtherDeclOpts[j]), MkDecl("c", OtherDeclOpts[k])>>
                       : i \in DOMAIN FirstDeclOpts, j \in DOMAIN OtherDeclOpts, k \in DOMAIN OtherDeclOpts}}
+(* every type prefix the grammar allows: [flow|stream] [discrete|parameter|constant] [input|output] *)
+AllPrefixes == {a \o b \o c : a \in {<<>>, <<"flow">>, <<"stream">>}, b \in {<<>>, <<"discrete">>, <<"parameter">>, <<"constant">>},
+                              c \in {<<>>, <<"input">>, <<"output">>}}
+PrefixPrograms ==
+    {Class("M", "", << ElemSec(vis, << Clause(pf, <<"Real">>, cd, ds) >>) >>)
+        : vis \in {"first"}, pf \in AllPrefixes, cd \in Range(CDimChoices),
+          ds \in {<<MkDecl("a", FirstDeclOpts[1])>>, <<MkDecl("a", FirstDeclOpts[2]), MkDecl("b", OtherDeclOpts[2])>>,
+                  <<MkDecl("a", FirstDeclOpts[5]), MkDecl("b", OtherDeclOpts[1]), MkDecl("c", OtherDeclOpts[3])>>}}
 (* two clauses in one section and in different sections: objects must not be shared ACROSS clauses either *)
 TwoClausePrograms ==
     {Class("M", "two clauses", << ElemSec("first", << Clause(PrefixChoices[p], <<"Real">>, CDimChoices[c], <<MkDecl("a", FirstDeclOpts[i]), MkDecl("b", OtherDeclOpts[1])>>),
@@ -429,13 +450,25 @@ StructElems == << Clause(<<>>, <<"Real">>, <<>>, <<Decl("a", <<>>, <<>>, "", <<>
                   ImportEl("list", <<"L", "K">>, <<"m1", "m2", "m3">>),
                   NestedEl(Inner("In1", "a")),
                   NestedEl(Inner("In2", "g")),
-                  Clause(<<"flow">>, <<"Real">>, <<>>, <<Decl("f", <<>>, <<>>, "", <<>>), Decl("g", <<>>, <<>>, "", <<>>)>>) >>
+                  Clause(<<"flow">>, <<"Real">>, <<>>, <<Decl("f", <<>>, <<>>, "", <<>>), Decl("g", <<>>, <<>>, "", <<>>)>>),
+                  ShortEl("T1", <<"Real">>, <<>>),
+                  ShortEl("T2", <<"Lib", "U">>, << <<"min", "0">>, <<"max", "9">> >>),
+                  \* two levels of nesting: Deep is declared by Mid, not by the outermost class
+                  NestedEl(Class("Mid", "", << ElemSec("first", << Clause(<<>>, <<"Real">>, <<>>, <<Decl("m", <<>>, <<>>, "", <<>>)>>),
+                                                                   NestedEl(Inner("Deep", "d")), ShortEl("T3", <<"Integer">>, <<>>) >>),
+                                              ElemSec("protected", << Clause(<<>>, <<"Real">>, <<>>, <<Decl("n", <<>>, <<>>, "", <<>>)>>) >>),
+                                              EqSec(FALSE, <<93>>) >>)) >>
 StructPrograms ==
     {Class("M", "doc", (IF vis = "first" THEN << ElemSec("first", es) >> ELSE << ElemSec("first", <<>>), ElemSec(vis, es) >>) \o << EqSec(FALSE, <<1>>) >>)
         : vis \in {"first", "public", "protected"},
           es \in {<<StructElems[i]>> : i \in DOMAIN StructElems}
              \cup {<<StructElems[q[1]], StructElems[q[2]]>> : q \in {r \in (DOMAIN StructElems) \X (DOMAIN StructElems) : r[1] # r[2]}}
              \cup {<<StructElems[3], StructElems[q[1]], StructElems[q[2]]>> : q \in {r \in {1, 10, 12} \X {1, 10, 12} : r[1] # r[2]}}}
+
+StructWidePrograms ==
+    {Class("M", "", << ElemSec("first", <<StructElems[q[1]]>>), ElemSec(vis, <<StructElems[q[2]], StructElems[q[3]]>>), AlgSec(FALSE, <<7>>) >>)
+        : vis \in {"public", "protected"},
+          q \in {r \in (DOMAIN StructElems) \X (DOMAIN StructElems) \X (DOMAIN StructElems) : r[1] # r[2] /\ r[1] # r[3] /\ r[2] # r[3]}}
 
 (* duplicates and near-duplicates *)
 D1(n) == Decl(n, <<>>, <<>>, "", <<>>)
@@ -454,8 +487,10 @@ DupPrograms ==
       Class("M", "case differs: no dup", << ElemSec("first", << RC(<<D1("a"), D1("A")>>) >>) >>) }
 
 Programs == (IF "clause" \in Families THEN {[family |-> "clause", c |-> c] : c \in ClausePrograms \cup TwoClausePrograms} ELSE {})
+       \cup (IF "prefixes" \in Families THEN {[family |-> "prefixes", c |-> c] : c \in PrefixPrograms} ELSE {})
        \cup (IF "sections" \in Families THEN {[family |-> "sections", c |-> c] : c \in SectionPrograms} ELSE {})
        \cup (IF "struct" \in Families THEN {[family |-> "struct", c |-> c] : c \in StructPrograms} ELSE {})
+       \cup (IF "structwide" \in Families THEN {[family |-> "structwide", c |-> c] : c \in StructWidePrograms} ELSE {})
        \cup (IF "dup" \in Families THEN {[family |-> "dup", c |-> c] : c \in DupPrograms} ELSE {})
 
 (* shape tags: the features of a class text that known deviations depend on *)
@@ -506,13 +541,14 @@ ExitEquationSection       == Cb("ExitEquationSection")
 ExitAlgorithmSection      == Cb("ExitAlgorithmSection")
 ExitComposition           == Cb("ExitComposition")
 ExitClassSpec             == Cb("ExitClassSpec")
+ExitClassSpecBase         == Cb("ExitClassSpecBase")
 ExitClassDefinition       == Cb("ExitClassDefinition")
 Finish == /\ pc = Len(evs) + 1 /\ pc' = pc + 1 /\ last' = "Finish" /\ UNCHANGED <<prog, evs, m>>
 Next == \/ EnterClassDefinition \/ EnterElementList \/ ExitElementList \/ EnterComponentClause
         \/ EnterComponentDeclaration \/ EnterDeclaration \/ EnterElementModification \/ ExitDeclaration
         \/ ExitComponentDeclaration \/ ExitComponentClause \/ EnterExtendsClause \/ ExitExtendsClause
         \/ ExitImportClause \/ ExitEquationSection \/ ExitAlgorithmSection \/ ExitComposition
-        \/ ExitClassSpec \/ ExitClassDefinition \/ Finish
+        \/ ExitClassSpec \/ ExitClassSpecBase \/ ExitClassDefinition \/ Finish
 Spec == Init /\ [][Next]_vars
 
 -----------------------------------------------------------------------------
